@@ -7,6 +7,7 @@ import (
 
 	"github.com/go-i2p/common/base64"
 	"github.com/go-i2p/common/destination"
+	"github.com/go-i2p/common/keys_and_cert"
 	"github.com/go-i2p/common/router_identity"
 	"github.com/go-i2p/common/router_info"
 )
@@ -108,4 +109,59 @@ func H_C07_AddressInjective() {
 	h2 := nd.Bytes(32)
 	nd.Assume(!bytes.Equal(h1, h2))
 	nd.Assert(string(refBase32(h1, false)) != string(refBase32(h2, false)), "b32/reference-injective")
+}
+
+// H_C07_AfterMutation: the hash and address follow the CURRENT identity: after the identity of a parsed RouterInfo /
+// Destination is changed in place (a padding byte through the live pointer, or the whole KeysAndCert replaced by
+// another parsed one), IdentHash / Hash / Base32Address are those of the new identity bytes, not a remembered value.
+//
+//verif:props C07
+//verif:witness mutated
+func H_C07_AfterMutation() {
+	switch nd.IntRange(0, 1) {
+	case 0:
+		in, _ := riShape{7, 4, 0, nil, 0, 0}.build()
+		ri, _, err := router_info.ReadRouterInfo(in)
+		if err != nil {
+			return
+		}
+		h0, e0 := ri.IdentHash()
+		nd.Assert(e0 == nil && h0.Bytes() == nd.Hash(in[:391]), "mut/ri/identhash-before")
+		id := ri.RouterIdentity()
+		if nd.Bool() {
+			nd.Assume(len(id.KeysAndCert.Padding) > 10)
+			id.KeysAndCert.Padding[10] ^= 0x55
+		} else {
+			other := nd.Bytes(391)
+			pinDest(other, 0, 7, 4, 0)
+			k, _, kerr := keys_and_cert.ReadKeysAndCert(other)
+			nd.Assume(kerr == nil)
+			id.KeysAndCert = k
+		}
+		nb, berr := id.Bytes()
+		nd.Assume(berr == nil)
+		nd.Cover("mutated")
+		h1, e1 := ri.IdentHash()
+		nd.Assert(e1 == nil && h1.Bytes() == nd.Hash(nb), "mut/ri/identhash-follows-current-identity")
+	case 1:
+		in := nd.Bytes(391)
+		pinDest(in, 0, 7, 4, 0)
+		d, _, err := destination.ReadDestination(in)
+		if err != nil {
+			return
+		}
+		h0, e0 := d.Hash()
+		a0, ae0 := d.Base32Address()
+		nd.Assert(e0 == nil && ae0 == nil && h0 == nd.Hash(in), "mut/dest/hash-before")
+		nd.Assume(len(d.KeysAndCert.Padding) > 10)
+		d.KeysAndCert.Padding[10] ^= 0x55
+		nb, berr := d.Bytes()
+		nd.Assume(berr == nil)
+		nd.Cover("mutated")
+		h1, e1 := d.Hash()
+		nd.Assert(e1 == nil && h1 == nd.Hash(nb), "mut/dest/hash-follows-current-identity")
+		a1, ae1 := d.Base32Address()
+		_ = a0
+		nd.Assert(ae1 == nil && a1 == string(refBase32(h1[:], false))+".b32.i2p", "mut/dest/address-follows-current-identity")
+	}
 }
